@@ -278,3 +278,9 @@ def run(ctx):
     ctx.guard(r10_1)
     ctx.guard(r10_2)
     ctx.guard(r10_3)
+    # the reverse solve re-creates the forward trajectory from the extras saved at ts[-1]: the backward sweep must
+    # start there and cover every output interval, whatever the loss weighting (rule of C09, saved-extras scenarios)
+    from . import c09, c15
+    ctx.guard(c09.r09_4)
+    # forward and reverse solves must walk mirror-image grids: no left-over step of rounding-error length (rule of C15)
+    ctx.guard(c15.r15_3)
